@@ -156,6 +156,102 @@ def atf_rules(run, db):
                           'with %d transfer functions the image is %s, expected %s: a transfer function is skipped or applied more than once' % (ntf, got.key() if got is not None else repr(p.value), want.key()), f.loc())
 
 
+def grid_role_rules(run, db):
+    """Which grid reaches a callable transfer function under which name: fx is the frequency axis of the columns (axis 1), fy of the
+    rows (axis 0), fr the radius and ft the azimuth of cart_to_polar(fx, fy) -- whether the grids are built here or supplied.  Decided
+    with tokens; forward_ft_unit / optimize_xy_separable / cart_to_polar are summarised by their contracts."""
+    from .common import bind_call
+    from ..core.interp import Domain
+    f = db.func(CV + 'apply_transfer_functions')
+
+    class Tok(Value):
+        def __init__(self, kind, *args):
+            self.kind, self.args = kind, args
+
+        def __repr__(self):
+            return '%s(%s)' % (self.kind, ', '.join(map(repr, self.args)))
+
+        def __eq__(self, o):
+            return isinstance(o, Tok) and self.kind == o.kind and len(self.args) == len(o.args) and all(a == b for a, b in zip(self.args, o.args))
+
+        def __hash__(self):
+            return hash(self.kind)
+
+    class TF(Value):
+        pass
+
+    class Sig(Value):
+        pass
+
+    class GDomain(Domain):
+        def __init__(self):
+            self.seen = []
+
+        def getattr(self, v, name, node):
+            if isinstance(v, Tok) and v.kind == 'obj' and name == 'shape':
+                return Tup([Tok('len', 0), Tok('len', 1)])
+            if isinstance(v, Sig) and name == 'parameters':
+                return Tup([Const('fx'), Const('fy'), Const('fr'), Const('ft')])
+            if isinstance(v, Tok) and name in ('real', 'T'):
+                return v
+            return None
+
+        def call_prysm(self, fi_, args, kw, node):
+            b = bind_call(fi_, args, kw)
+            if fi_.name == 'forward_ft_unit':
+                n = b.get('samples')
+                return Tok('axis', n.args[0]) if isinstance(n, Tok) and n.kind == 'len' else Unknown('frequency axis of an unknown length')
+            if fi_.name == 'optimize_xy_separable':
+                return Tup([b.get('x'), b.get('y')])
+            if fi_.name == 'cart_to_polar':
+                return Tup([Tok('rho', b.get('x'), b.get('y')), Tok('phi', b.get('x'), b.get('y'))])
+            if fi_.module is not f.module:
+                return Unknown(fi_.name)
+            return None
+
+        def call_ext(self, dotted, args, kwargs, node):
+            last = dotted.rsplit('.', 1)[-1]
+            if dotted == 'builtins.callable' and args:
+                return Const(isinstance(args[0], TF))
+            if dotted == 'inspect.signature' and args and isinstance(args[0], TF):
+                return Sig()
+            if last in ('fft2', 'ifft2', 'fftshift', 'ifftshift', 'real', 'asarray') and args and isinstance(args[0], Tok):
+                return args[0]
+            return None
+
+        def binop(self, op, a, b, node):
+            if isinstance(a, Tok) and a.kind in ('obj', 'spec'):
+                return Tok('spec')
+            return None
+
+        def call_object(self, fobj, args, kwargs, node):
+            if isinstance(fobj, TF):
+                self.seen.append((list(args), dict(kwargs), node))
+                return Tok('tfarray')
+            return None
+    for label, gx, gy in (('grids built here', Const(None), Const(None)), ('grids supplied', Tok('user', 'fx'), Tok('user', 'fy'))):
+        for shift in (False, True):
+            dom = GDomain()
+            it = Interp(db, dom)
+            kw = {'obj': Tok('obj'), 'dx': Unknown('dx'), 'tfs': Tup([TF()], 'list'), 'fx': gx, 'fy': gy, 'fr': Const(None), 'ft': Const(None), 'shift': Const(shift)}
+            res = [p for p in it.run(f, kwargs=lambda: dict(kw)) if p.outcome == 'return']
+            if not res or not dom.seen:
+                raise AnalysisError('apply_transfer_functions grid roles (%s): the callable transfer function is not reached' % label)
+            wx, wy = (Tok('axis', 1), Tok('axis', 0)) if isinstance(gx, Const) else (gx, gy)
+            want = {'fx': wx, 'fy': wy, 'fr': Tok('rho', wx, wy), 'ft': Tok('phi', wx, wy)}
+            for args, kwargs, node in dom.seen:
+                if args:
+                    raise AnalysisError('apply_transfer_functions: a callable transfer function is called with positional grids')
+                bad = {k: v for k, v in kwargs.items() if k in want and not (v == want[k])}
+                unk = [k for k, v in bad.items() if not isinstance(v, Tok)]
+                if unk:
+                    raise AnalysisError('apply_transfer_functions: the grid handed over as %s is not followed (%r)' % (unk[0], bad[unk[0]]))
+                run.check(not bad, 'C15.grid', f.qual, 'grid roles: %s, shift=%s' % (label, shift),
+                          'a callable transfer function receives the column frequencies as fx, the row frequencies as fy, and the radius / azimuth of (fx, fy) as fr / ft [%s]' % label,
+                          'a callable transfer function is handed %s [%s]: a transfer function written in terms of that grid is evaluated on another one'
+                          % (', '.join('%s=%r (expected %r)' % (k, v, want[k]) for k, v in sorted(bad.items())), label), f.loc(node))
+
+
 def grid_shape_rules(run, db):
     """Frequency grids handed to callable transfer functions broadcast to the shape of the spectrum they multiply,
     whether the caller gives none, vectors, or the documented 2-D (M, N) grids -- decided by interpreting the whole routine in
@@ -540,7 +636,7 @@ def check(run, db, tier):
     run.rule('C15.fold', 'the transfer-function list is folded multiplicatively over every element exactly once')
     run.rule('C15.dc', 'MTF/PTF/OTF share one transform and are normalised by their own sample at n//2')
     run.rule('C15.cache', 'no memo keyed by less than its fill reads; arguments are not modified in place (results do not depend on call history)')
-    for fn in (conv_rules, atf_rules, inventory_rules, grid_shape_rules, otf_rules, cache_rules):
+    for fn in (conv_rules, atf_rules, inventory_rules, grid_shape_rules, grid_role_rules, otf_rules, cache_rules):
         run.group(fn, run, db)
     run.require_instances('C15.origin', 12)
     run.require_instances('C15.dc', 20)
